@@ -67,24 +67,27 @@ structure DecSt where
 inductive StepRes where
   | cont (d : DecSt)
   | marker (d : DecSt)
-  | fail (st : Status)
+  | fail (d : DecSt) (st : Status)
 
 def DecSt.copy (d : DecSt) (dist len : Nat) : StepRes :=
   if 0 < dist ∧ dist ≤ d.h.dictLen then .cont { d with h := d.h.copyMatch dist len }
-  else .fail (.err "distance out of range")
+  else .fail d (.err "distance out of range")
 
-/-- read one operation and apply it (readOp + apply) -/
+/-- read one operation and apply it (readOp + apply).  The state is taken apart first so that
+    the probability table is passed on uniquely referenced (in-place updates when compiled). -/
 def decStep (p : Props) (d : DecSt) : StepRes :=
-  match decTree pm (opDec (mkCtx p d.s d.h)) d.tbl d.rd with
-  | none => .fail .unexpectedEOF
-  | some (op, tbl', rd') =>
-    let s' := d.s.apply op
-    let d1 : DecSt := { d with s := s', tbl := tbl', rd := rd', ops := d.ops.push op }
-    match op with
-    | .lit b => .cont { d1 with h := d.h.push b }
-    | .mtch len dd => if dd = eosDist then .marker d1 else d1.copy (dd + 1) len
-    | .rep _ len => d1.copy (s'.r0 + 1) len
-    | .shortRep => d1.copy (s'.r0 + 1) 1
+  match d with
+  | ⟨s, tbl, rd, h, ops⟩ =>
+    match decTree pm (opDec (mkCtx p s h)) tbl rd with
+    | none => .fail { s := s, tbl := #[], rd := { range := 0, code := 0, inp := [] }, h := h, ops := ops } .unexpectedEOF
+    | some (op, tbl', rd') =>
+      let s' := s.apply op
+      let d1 : DecSt := { s := s', tbl := tbl', rd := rd', h := h, ops := ops.push op }
+      match op with
+      | .lit b => .cont { d1 with h := d1.h.push b }
+      | .mtch len dd => if dd = eosDist then .marker d1 else d1.copy (dd + 1) len
+      | .rep _ len => d1.copy (s'.r0 + 1) len
+      | .shortRep => d1.copy (s'.r0 + 1) 1
 
 /-- Result of decoding one range-coded segment (a classic stream body or an LZMA2 chunk). -/
 structure SegRes where
@@ -105,7 +108,7 @@ def decSegment (p : Props) (size : Option Nat) (start : Nat) (strictNoMarker : B
       finish d
     else
       match decStep p d with
-      | .fail st => ⟨d, st, false⟩
+      | .fail d' st => ⟨d', st, false⟩
       | .marker d' =>
         if strictNoMarker then ⟨d', .err "end marker not allowed", true⟩
         else if d'.rd.code ≠ 0 then ⟨d', .err "data after end of stream marker", true⟩
@@ -128,8 +131,7 @@ where
     if d.rd.code = 0 then ⟨d, .eof, false⟩
     else if strictNoMarker then ⟨d, .err "range decoder not finished", false⟩
     else match decStep p d with
-      | .fail .unexpectedEOF => ⟨d, .unexpectedEOF, false⟩
-      | .fail st => ⟨d, st, false⟩
+      | .fail d' st => ⟨d', st, false⟩
       | .marker d' => ⟨d', .eof, true⟩
       | .cont d' => ⟨d', .err "wrong uncompressed size", false⟩
 
@@ -160,10 +162,12 @@ def Hist.applyOp (h : Hist) (s' : St) : RawOp → Hist
 
 /-- encode one operation -/
 def encStep (p : Props) (x : EncSt) (op : RawOp) : EncSt :=
-  let (tbl', e') := encPath x.tbl x.e (opEnc (mkCtx p x.s x.h) op)
-  let (e'', bytes') := flushOut e' x.bytes
-  let s' := x.s.apply op
-  { s := s', tbl := tbl', e := e'', bytes := bytes', h := x.h.applyOp s' op }
+  match x with
+  | ⟨s, tbl, e, bytes, h⟩ =>
+    let (tbl', e') := encPath tbl e (opEnc (mkCtx p s h) op)
+    let (e'', bytes') := flushOut e' bytes
+    let s' := s.apply op
+    { s := s', tbl := tbl', e := e'', bytes := bytes', h := h.applyOp s' op }
 
 def encClose (x : EncSt) : ByteArray :=
   (flushOut { x.e with out := x.e.close } x.bytes).2
